@@ -204,12 +204,14 @@ def full_frag(rng):
     return s
 
 
-def member(rng):
+def member(rng, short=None):
     """A validated member of a random citation pattern of the installed database (full or short
     form, including reporters, laws and journals with custom templates: 'NY Slip Op 51797(U)', ...)."""
     from vmon.rxgen import sample
     for _ in range(8):
         e = rng.choice(DB.cit_extractors)
+        if short is not None and bool(e.extra["short"]) != short:
+            continue
         if not (e.regex.startswith(PRE) and e.regex.endswith(POST)):
             continue
         body = e.regex[len(PRE):-len(POST)]
